@@ -160,16 +160,14 @@ func (s *httpServer) doDeleteTopic(w http.ResponseWriter, req *http.Request, ps 
 		return nil, http_api.Err{400, "MISSING_ARG_TOPIC"}
 	}
 
-	registrations := s.nsqlookupd.DB.FindRegistrations("channel", topicName, "*")
-	for _, registration := range registrations {
-		s.nsqlookupd.logf(LOG_INFO, "DB: removing channel(%s) from topic(%s)", registration.SubKey, topicName)
-		s.nsqlookupd.DB.RemoveRegistration(registration)
+	// the channels and the topic go in one critical section: a concurrent REGISTER
+	// lands entirely before or entirely after the deletion
+	channels, topics := s.nsqlookupd.DB.RemoveTopic(topicName)
+	for _, registration := range channels {
+		s.nsqlookupd.logf(LOG_INFO, "DB: removing channel(%s) from topic(%s)", registration.SubKey, registration.Key)
 	}
-
-	registrations = s.nsqlookupd.DB.FindRegistrations("topic", topicName, "")
-	for _, registration := range registrations {
-		s.nsqlookupd.logf(LOG_INFO, "DB: removing topic(%s)", topicName)
-		s.nsqlookupd.DB.RemoveRegistration(registration)
+	for _, registration := range topics {
+		s.nsqlookupd.logf(LOG_INFO, "DB: removing topic(%s)", registration.Key)
 	}
 
 	return nil, nil
@@ -215,12 +213,8 @@ func (s *httpServer) doCreateChannel(w http.ResponseWriter, req *http.Request, p
 	}
 
 	s.nsqlookupd.logf(LOG_INFO, "DB: adding channel(%s) in topic(%s)", channelName, topicName)
-	key := Registration{"channel", topicName, channelName}
-	s.nsqlookupd.DB.AddRegistration(key)
-
 	s.nsqlookupd.logf(LOG_INFO, "DB: adding topic(%s)", topicName)
-	key = Registration{"topic", topicName, ""}
-	s.nsqlookupd.DB.AddRegistration(key)
+	s.nsqlookupd.DB.AddTopicChannel(topicName, channelName)
 
 	return nil, nil
 }
